@@ -5,6 +5,9 @@ from engine.woodlint.db import E, Unrecognised, name_matches, as_relation, flatt
 def is_param_field(e, field=None, param=1, _depth=0):
     """e is `(*argN).field` (through any refs/derefs/copies)."""
     e = e.strip()
+    if e.kind == 'call' and len(e.args) in (1, 2) and (e.op.endswith('mem::take') or e.op.endswith('mem::replace')):
+        # mem::take(&mut self.field) / mem::replace(&mut self.field, ..) evaluate to the field's value
+        return is_param_field(e.args[0], field, param, _depth)
     if e.kind == 'phi' and field is not None and _depth < 3:
         # the field of a `mut self` taken by value is assigned in place: a later read is a merge of the parameter's
         # field and of values computed from it -- still "the current value of self.field"
@@ -147,13 +150,21 @@ def position_idiom(prog, e):
 def compose(cx, parts):
     """Evaluate rules of other modules as part of the current rule: [(rule id, function)].  Instances are
     prefixed with the borrowed rule id; a missing anchor is reported (fail closed) under the current rule."""
+    import sys
     sub = cx.__class__(cx.prog, cx.profile, cx.prop)
-    for rid, f in parts:
+    for part in parts:
+        rid, f = part[0], part[1]
         sub.rule = rid
+        before = len(sub.records)
         try:
             f(sub)
         except Unrecognised as e:
             sub.unrecognised('anchor', detail='rule cannot be evaluated on this tree: %s' % e)
+        # the borrowed rule keeps the floor of the module it comes from
+        floor = part[2] if len(part) > 2 else getattr(sys.modules.get(f.__module__), 'FLOORS', {}).get(rid, 1)
+        got = len([r for r in sub.records[before:] if r.get('kind') != 'unrecognised'])
+        if got < floor:
+            sub.fail('floor', detail='rule matched %d instance(s), fewer than the %d confirmed by hand on the reference tree' % (got, floor), kind='unrecognised')
     for r in sub.records:
         r = dict(r)
         r['instance'] = r['rule'] + ':' + r['instance']
@@ -215,3 +226,42 @@ def some_of(e, v):
     if v == ('in', frozenset([1])) or v == ('not', frozenset([0])):
         return e.a
     return None
+
+
+def lossless_casts(cx, fns, audited, consequence):
+    """Every integer-to-integer cast in fns is lossless on every path (path evaluator, widening by type alone when
+    the evaluator does not track the operand) or listed in `audited` (key: function|cast|ordinal in block order)."""
+    from engine.woodlint.linear import PathEval, int_range
+    prog = cx.prog
+    for fn in sorted(fns, key=lambda f: f.name):
+        casts = [pos for pos, st in fn.statements() if st['k'] == 'assign' and st['rv']['k'] == 'cast' and st['rv']['ck'] == 'IntToInt']
+        if not casts:
+            continue
+        proved = {}
+        if fn.is_acyclic():
+            pe = PathEval(fn, {}, prog=prog)
+            pe.run(lambda path, st: None)
+            cx.count_paths(pe.paths)
+            for ob in pe.obligations:
+                if ob['kind'] == 'cast':
+                    k = tuple(ob['pos'])
+                    proved[k] = proved.get(k, True) and ob['ok']
+        for i, pos in enumerate(sorted(casts)):
+            st = fn.blocks[pos.bb]['st'][pos.idx]
+            o = st['rv']['o']
+            dty = st['rv']['ty']
+            inst = 'cast#%d:%s' % (i, short(fn.name))
+            key = '%s|cast|%d' % (fn.name, i)
+            ok = proved.get((pos.bb, pos.idx))
+            sty = fn.locals[o['pl']['l']] if o['k'] in ('copy', 'move') and not o['pl']['p'] else (o.get('ty') or '')
+            rs, rd = int_range(sty), int_range(dty)
+            if not ok and rs and rd and rd[0] <= rs[0] and rs[1] <= rd[1]:
+                ok = True    # the target type holds every value of the source type
+            cx.count_sites()
+            if ok:
+                cx.ok(inst, fn, fn.loc(pos.bb, pos.idx), '`as %s` is lossless on every path' % dty)
+            elif key in audited:
+                cx.ok(inst + ':audited', fn, fn.loc(pos.bb, pos.idx), 'NOT DECIDED (audited): ' + audited[key])
+            else:
+                cx.fail(inst, fn, fn.loc(pos.bb, pos.idx), '`%s as %s` can drop high bits: the value is not bounded by the target type on every path (%s)'
+                        % (show(fn.operand_expr(o))[:80], dty, consequence))
